@@ -14,7 +14,7 @@ from fractions import Fraction
 from pathlib import Path
 
 VERIF = Path("/verif")
-REPO = Path("/repo")
+REPO = Path(os.environ.get("TEMPEST_REPO_OVERRIDE", "/repo"))  # override only for experiments on scratch worktrees
 COQ = VERIF / "coq"
 SCRATCH_ROOT = VERIF / ".scratch"
 GUARD = "TEMPEST_VERIF"
